@@ -1,6 +1,8 @@
 // entry point of the C++ driver: dispatches each case to the translation unit of its numeric type
 #include "sx.hpp"
+#include <cstdlib>
 #include <iostream>
+#include <locale>
 #include <string>
 #include <vector>
 extern std::vector<Sx> g_libm_log;
@@ -8,8 +10,14 @@ extern bool g_libm_logging;
 Sx case_float(std::string const&, Sx const&);
 Sx case_double(std::string const&, Sx const&);
 Sx case_long_double(std::string const&, Sx const&);
+// VERIF_LOCALE=comma: the process-global C++ locale writes and reads numbers with a decimal comma (every stream the library or its
+// user constructs afterwards is imbued with it; the driver's own input and output do not go through locale-dependent formatting)
+struct comma_punct : std::numpunct<char> { char do_decimal_point() const override { return ','; } };
+
 int main()
 {
+    if (char const* l = std::getenv("VERIF_LOCALE"))
+        if (std::string(l) == "comma") std::locale::global(std::locale(std::locale::classic(), new comma_punct));
     std::string line;
     while (std::getline(std::cin, line))
     {
